@@ -157,6 +157,9 @@ def analyse(D, e, run: Run) -> bool:
 
 
 def check(repo: Repo, run: Run) -> None:
+    from .c09 import window_obligations
+    window_obligations(repo, run, ("K3", "K4"),
+                       "the decoder's events[-1] is then not (only) the END record of the call being rendered")
     D = decoders.Decoders(repo)
     n = n_ex = 0
     for e in D.entries():
